@@ -52,6 +52,17 @@ fn main() {
     ctx.run_slice(Slice::new(format!("structured-triples[{}^3]", n3), n3 * n3 * n3, |i, loc| {
         check_assoc::<B>(&st3[(i / (n3 * n3)) as usize], &st3[((i / n3) % n3) as usize], &st3[(i % n3) as usize], loc)
     }));
+    // large operands (sizes 33 .. 129): every pair of one numbering of each shape family, strict and lax
+    let sizes: Vec<usize> = if ctx.quick() { vec![33, 65] } else { vec![33, 64, 65, 129] };
+    let big: Vec<_> = ohmc::props::structured::shapes_at(&sizes, false).into_iter().map(|x| x.1).step_by(2).collect();
+    let nb = big.len() as u64;
+    ctx.run_slice(Slice::new(format!("structured-pairs-large[sizes {:?}: {}^2, strict and lax]", sizes, nb), nb * nb, |i, loc| {
+        let (f, g) = (&big[(i / nb) as usize], &big[(i % nb) as usize]);
+        check_pair::<B>(f, g, loc);
+        let lf = ohmc_core::plain::PLax { open: f.clone(), quot: (1..f.nodes.len()).map(|v| (v, v - 1)).take(2).collect() };
+        let lg = ohmc_core::plain::PLax { open: g.clone(), quot: (1..g.nodes.len()).map(|v| (v - 1, v)).collect() };
+        check_lax_pair(&lf, &lg, loc);
+    }));
     // many pending unifications (repeated and distinct), around powers of two: all pairs and the unit laws
     let mut many: Vec<ohmc_core::plain::PLax<u8, u8>> = vec![ohmc_core::plain::PLax::strict(ohmc_core::plain::POpen::empty())];
     for k in [1usize, 2, 3, 4, 7, 8, 9, 15, 16, 17, 18, 31, 32, 33, 64, 65] {
